@@ -19,6 +19,8 @@ def Err.toString : Err → String
 
 instance : ToString Err := ⟨Err.toString⟩
 
+deriving instance DecidableEq for Except
+
 /-- Comparison operators that appear as decision literals in the source; the slot
 translator emits one of these per extracted comparison. -/
 inductive Cmp where
